@@ -80,6 +80,14 @@ class Crate:
                         cg[f.path].add(t["callee"])
                     if t.get("raw") and t["raw"] != t.get("callee"):
                         cg[f.path].add(t["raw"])
+                    if t.get("trait") and not t.get("resolved"):
+                        # unresolved trait call (generic D: Dialect, W: Write): may reach every local impl
+                        meth = (t.get("raw") or "").split("::")[-1]
+                        for im in self.impls:
+                            if im["trait"] == t["trait"]:
+                                for m in im["methods"]:
+                                    if m["name"] == meth:
+                                        cg[f.path].add(m["path"])
                     for a in t.get("args", []):
                         fnc = const_fn(a)
                         if fnc:
